@@ -58,6 +58,15 @@ func (s *Sched) OnLock(m interface{}) {
 	<-t.resume
 }
 
+// Yield is a scheduling point without a resource: the running controlled goroutine may be preempted here and stays
+// enabled (used for operations on shared storage inside a critical section, so that code which skips the lock can be
+// interleaved with the section).
+func (s *Sched) Yield() {
+	t := s.threads[s.cur]
+	s.events <- event{thread: t.id, kind: 0, mutex: nil}
+	<-t.resume
+}
+
 func (s *Sched) OnUnlock(m interface{}) {
 	delete(s.held, m)
 }
